@@ -21,7 +21,8 @@ RULE = (
     "fields (cross-checked against datetime.strftime for Gregorian years >= "
     "1000, |offset| < 24 h, no %s). kind 'invert': formats that determine "
     "date (%Y%m%d in any order / %F / %Y %j), time (%H %M %S / %X) and zone "
-    "(%z) once each, or %s alone: strptime(strftime(p, f), f) must have p's "
+    "(%z) once each, or %s alone or next to up to three other directives: "
+    "strptime(strftime(p, f), f) must have p's "
     "instant (and offset unless %s). kind 'partial': formats with %Y but "
     "lower-order parts or the zone omitted default to the start of the period"
     " / the parser's assumed or (faked) local zone. kind 'refuse': any other "
@@ -299,6 +300,21 @@ def st_invert(draw, partial=False):
         kw = draw(st_point(cm, dyadic_ok=False, years=st.one_of(
             st.integers(1200, 2800), st.sampled_from([1969, 1970, 0, 1, 9999]))))
         fmt = draw(st.sampled_from(["%s", "%s", "@%s", "%s s", "t=%s;"]))
+        if draw(st.booleans()):
+            # %s next to other directives of the same point: the format still
+            # determines the instant
+            extra = draw(st.lists(st.sampled_from(
+                ["%z", "%z", "%Y", "%m", "%d", "%j", "%H", "%M", "%S", "%F",
+                 "%X"]), min_size=1, max_size=3, unique=True))
+            # no field spelled twice (the parse regex cannot repeat a group)
+            if "%F" in extra:
+                extra = [x for x in extra if x not in ("%Y", "%m", "%d")]
+            if "%X" in extra:
+                extra = [x for x in extra if x not in ("%H", "%M", "%S")]
+            pieces = list(draw(st.permutations(extra + ["%s"])))
+            fmt = pieces[0]
+            for x in pieces[1:]:
+                fmt += draw(st.sampled_from([" ", "_", " | ", "T"])) + x
         return {"kind": "invert", "mode": mode, "p": kw, "fmt": fmt, "cfg": cfg}
     kw = draw(st_point(cm, dyadic_ok=False))
     date = draw(st.sampled_from(["ymd", "ymd", "F", "Yj"]))
